@@ -20,10 +20,13 @@ func init() {
 
 const lossyPkg = "internal/lossy"
 
-// ringSlot recognises &r.buffer[idx] on lossy.ring.
+// ringSlot recognises &r.buffer[idx] on lossy.ring, written in place or obtained from a slot accessor.
 func ringSlot(cx *Ctx, v ssa.Value) (idx ssa.Value, ok bool) {
 	ia, isIA := v.(*ssa.IndexAddr)
 	if !isIA {
+		if _, _, ok := ringSlotOf(cx, v); ok {
+			return nil, true
+		}
 		return nil, false
 	}
 	buf := cx.P.Field(lossyPkg, "ring", "buffer")
@@ -31,6 +34,61 @@ func ringSlot(cx *Ctx, v ssa.Value) (idx ssa.Value, ok bool) {
 		return nil, false
 	}
 	return ia.Index, true
+}
+
+// maskOf: v = x & c or, for a power of two c+1, x % (c+1): the count x reduced to a slot index.
+func maskOf(v ssa.Value) (ssa.Value, int64, bool) {
+	if x, c, ok := andMask(v); ok {
+		return x, c, true
+	}
+	if b, ok := v.(*ssa.BinOp); ok && b.Op == token.REM {
+		if c, ok := constInt(b.Y); ok && c > 0 && c&(c-1) == 0 {
+			if t, isB := b.X.Type().Underlying().(*types.Basic); isB && t.Info()&types.IsUnsigned != 0 {
+				return b.X, c - 1, true
+			}
+		}
+	}
+	return nil, 0, false
+}
+
+// ringSlotOf: v addresses the ring slot of the read/write count x, i.e. &r.buffer[x & m]: in place, or through a
+// straight-line accessor `func (r *ring) slot(count) *unsafe.Pointer { return &r.buffer[count & m] }`.
+func ringSlotOf(cx *Ctx, v ssa.Value) (x ssa.Value, m int64, ok bool) {
+	buf := cx.P.Field(lossyPkg, "ring", "buffer")
+	if buf == nil {
+		return nil, 0, false
+	}
+	if ia, isIA := v.(*ssa.IndexAddr); isIA && sameField(fieldOf(ia.X), buf) {
+		return maskOf(ia.Index)
+	}
+	c, isCall := v.(*ssa.Call)
+	if !isCall || c.Call.IsInvoke() || c.Call.StaticCallee() == nil {
+		return nil, 0, false
+	}
+	callee := origin(c.Call.StaticCallee())
+	if callee == nil || len(callee.Blocks) != 1 || len(callee.Params) != len(c.Call.Args) {
+		return nil, 0, false
+	}
+	for _, in := range callee.Blocks[0].Instrs {
+		ret, isRet := in.(*ssa.Return)
+		if !isRet || len(ret.Results) != 1 {
+			continue
+		}
+		ia, isIA := ret.Results[0].(*ssa.IndexAddr)
+		if !isIA || !sameField(fieldOf(ia.X), buf) {
+			return nil, 0, false
+		}
+		px, pm, pok := maskOf(ia.Index)
+		if !pok {
+			return nil, 0, false
+		}
+		for i, p := range callee.Params {
+			if ssa.Value(p) == px {
+				return c.Call.Args[i], pm, true
+			}
+		}
+	}
+	return nil, 0, false
 }
 
 func andMask(v ssa.Value) (ssa.Value, int64, bool) {
@@ -123,8 +181,7 @@ func ruleC17Reserve(cx *Ctx) {
 		}
 	}
 	cx.R.Check(dom, rule, name, "reserve-before-publish", cx.P.where(st), "the slot store executes only after the tail CAS succeeded")
-	idx, _ := ringSlot(cx, callCommon(st).Args[0])
-	x, m, ok := andMask(idx)
+	x, m, ok := ringSlotOf(cx, callCommon(st).Args[0])
 	cx.R.Check(ok && x == t && m == n-1, rule, name, "slot index", cx.P.where(st), fmt.Sprintf("slot = reserved tail & %d (len-1)", n-1))
 	// stored value is the argument node
 	sv := callCommon(st).Args[1]
@@ -226,10 +283,13 @@ func ruleC17Drain(cx *Ctx) {
 	}
 	cx.R.Check(nonNil, rule, name, "non-nil only", cx.P.where(consume), "the consumer is called only on the edge where the loaded slot is non-nil")
 	// same slot loaded and cleared
-	li, _ := ringSlot(cx, callCommon(load).Args[0])
-	ci, _ := ringSlot(cx, callCommon(clear).Args[0])
-	hx, m, okm := andMask(li)
-	cx.R.Check(li == ci && okm && m == n-1, rule, name, "slot identity", cx.P.where(clear), fmt.Sprintf("the cleared slot is the loaded slot head & %d", n-1))
+	hx, m, okm := ringSlotOf(cx, callCommon(load).Args[0])
+	cxv, cm, okc := ringSlotOf(cx, callCommon(clear).Args[0])
+	sameSlot := okm && okc && hx == cxv && m == cm
+	if callCommon(load).Args[0] == callCommon(clear).Args[0] {
+		sameSlot = okm // the very same address value (slot := r.slot(head))
+	}
+	cx.R.Check(sameSlot && okm && m == n-1, rule, name, "slot identity", cx.P.where(clear), fmt.Sprintf("the cleared slot is the loaded slot head & %d", n-1))
 	cx.R.Check(instrDominates(clear, consume), rule, name, "clear ≺ deliver", cx.P.where(clear), "a slot is cleared before its element is delivered (never delivered twice by a later drain)")
 	// stop at first unpublished slot: from the nil edge the consumer call is unreachable
 	stopOK := false
